@@ -47,6 +47,8 @@ type boundsEngine struct {
 	writes   map[*ssa.Function]map[*types.Var]bool
 	extra    func(a *boundsAn, ins ssa.Instruction) []boundsOb // additional obligations (E3 rules)
 	trusted  map[string]bool
+	// integer parameters assumed non-negative during the analysis in progress (see summary)
+	assumeNonNeg []*ssa.Parameter
 }
 
 func newBoundsEngine(P *Program) *boundsEngine {
@@ -843,6 +845,43 @@ func (e *boundsEngine) summary(g *ssa.Function) *fnSummary {
 	s := &fnSummary{fn: g}
 	e.sums[g] = s
 	e.analyse(g, s)
+	// assume-guarantee for loop counters that start at a parameter: if something stays
+	// unproven, retry with every integer parameter that feeds an integer phi assumed >= 0;
+	// when that helps, the assumption becomes a pre-condition checked at every call site
+	if len(s.unproven) > 0 && len(e.P.Callers(g)) > 0 {
+		var ps []*ssa.Parameter
+		for _, b := range g.Blocks {
+			for _, ins := range b.Instrs {
+				if phi, ok := ins.(*ssa.Phi); ok && isIntType(phi.Type()) {
+					for _, ed := range phi.Edges {
+						if par, ok := ed.(*ssa.Parameter); ok && par.Parent() == g {
+							dup := false
+							for _, q := range ps {
+								if q == par {
+									dup = true
+								}
+							}
+							if !dup {
+								ps = append(ps, par)
+							}
+						}
+					}
+				}
+			}
+		}
+		if len(ps) > 0 {
+			s2 := &fnSummary{fn: g}
+			e.assumeNonNeg = ps
+			e.analyse(g, s2)
+			e.assumeNonNeg = nil
+			if len(s2.unproven) < len(s.unproven) {
+				for _, par := range ps {
+					s2.requires = append(s2.requires, boundsOb{ins: g.Blocks[0].Instrs[0], what: "parameter " + par.Name() + " >= 0 (start of a loop counter)", e: linSym(sym{canon(par), 'v'})})
+				}
+				*s = *s2
+			}
+		}
+	}
 	s.done = true
 	delete(e.inProg, g)
 	return s
@@ -879,6 +918,12 @@ func onlyParamSyms(f lin, g *ssa.Function) bool {
 
 func (e *boundsEngine) analyse(g *ssa.Function, s *fnSummary) {
 	a := &boundsAn{eng: e, fn: g, forms: map[ssa.Value]lin{}, lens: map[ssa.Value]lin{}, defSeen: map[string]bool{}, in: map[*ssa.BasicBlock]factSet{}}
+	for _, par := range e.assumeNonNeg {
+		if par.Parent() == g {
+			a.anchor = nil
+			a.addDef(a.sv(par, 'v'))
+		}
+	}
 	// pass 0: touch every value so that definition facts (contracts, inductions, copy/min) exist
 	for _, b := range g.Blocks {
 		for _, ins := range b.Instrs {
